@@ -251,4 +251,37 @@ theorem polyline_local_aabb_tight (rmax : K) (vs : List (V3 K)) (idx : List (Nat
 example : VertsInRange (10:ℚ) [⟨0, 1, 2⟩, ⟨3, 4, 5⟩] := by
   intro v hv; simp at hv; rcases hv with rfl | rfl <;> norm_num
 
+/-- **`Compound::local_aabb` is exact w.r.t. its parts' boxes**: each face of the compound box is the corresponding face of
+the `compute_aabb(delta)` of one of the parts (which, for the closed-form kinds, touches the posed part: parts 4, 5, 12). -/
+theorem compound_local_aabb_tight (rmax hm : K) (parts : List (Iso3 K × BShape3 K)) (box : Aabb3 K) (hne : parts ≠ []) :
+    letI := fieldNum K sq
+    compoundLocalAabb3 rmax hm parts = some box →
+    (∀ ms ∈ parts, ∀ l, ms.2.aabb hm ms.1 = some l → InRange rmax l) →
+    (∃ ms ∈ parts, ∃ l, ms.2.aabb hm ms.1 = some l ∧ box.maxs.x = l.maxs.x) ∧
+    (∃ ms ∈ parts, ∃ l, ms.2.aabb hm ms.1 = some l ∧ box.mins.x = l.mins.x) ∧
+    (∃ ms ∈ parts, ∃ l, ms.2.aabb hm ms.1 = some l ∧ box.maxs.y = l.maxs.y) ∧
+    (∃ ms ∈ parts, ∃ l, ms.2.aabb hm ms.1 = some l ∧ box.mins.y = l.mins.y) ∧
+    (∃ ms ∈ parts, ∃ l, ms.2.aabb hm ms.1 = some l ∧ box.maxs.z = l.maxs.z) ∧
+    (∃ ms ∈ parts, ∃ l, ms.2.aabb hm ms.1 = some l ∧ box.mins.z = l.mins.z) := by
+  intro h hr
+  simp only [compoundLocalAabb3, Option.map_eq_some_iff] at h
+  obtain ⟨leaves, hl, rfl⟩ := h
+  have leaf : ∀ l ∈ leaves, ∃ ms ∈ parts, @BShape3.aabb K (fieldNum K sq) hm ms.1 ms.2 = some l := fun l hlm => mapM_rev _ _ _ hl l hlm
+  have hne' : leaves ≠ [] := by
+    obtain ⟨t, ht⟩ := List.exists_mem_of_ne_nil parts hne
+    obtain ⟨y, hy, _⟩ := mapM_fwd _ _ _ hl t ht
+    exact List.ne_nil_of_mem hy
+  have hin : ∀ l ∈ leaves, InRange rmax l := by
+    intro l hlm
+    obtain ⟨ms, hms, e⟩ := leaf l hlm
+    exact hr ms hms l e
+  obtain ⟨⟨l1, h1, e1⟩, ⟨l2, h2, e2⟩, ⟨l3, h3, e3⟩, ⟨l4, h4, e4⟩, ⟨l5, h5, e5⟩, ⟨l6, h6, e6⟩⟩ := root_aabb_tight sq rmax leaves hne' hin
+  refine ⟨?_, ?_, ?_, ?_, ?_, ?_⟩
+  · obtain ⟨ms, hms, e⟩ := leaf l1 h1; exact ⟨ms, hms, l1, e, e1⟩
+  · obtain ⟨ms, hms, e⟩ := leaf l2 h2; exact ⟨ms, hms, l2, e, e2⟩
+  · obtain ⟨ms, hms, e⟩ := leaf l3 h3; exact ⟨ms, hms, l3, e, e3⟩
+  · obtain ⟨ms, hms, e⟩ := leaf l4 h4; exact ⟨ms, hms, l4, e, e4⟩
+  · obtain ⟨ms, hms, e⟩ := leaf l5 h5; exact ⟨ms, hms, l5, e, e5⟩
+  · obtain ⟨ms, hms, e⟩ := leaf l6 h6; exact ⟨ms, hms, l6, e, e6⟩
+
 end C09
